@@ -15,19 +15,32 @@ open Sweep
 def usageAt (as : List TAtom) (t : Time) : Time :=
   (as.filter (fun a => covers a t)).foldl (fun u a => tadd u a.amount) (0, 0)
 
-theorem C05_no_peak_iff_within_capacity (as : List TAtom) (h : AtomsOk as) (cap : Time) :
-    rrPeaks as cap = [] ↔ ∀ t : Time, tle (usageAt as t) cap = true := by sorry
+/-- `h0`: a resource with NO use atom and a negative capacity is the one case in which the sweep (which has no
+    pulse to look at) and the pointwise reading (usage 0 > capacity) differ: `as = []`, `cap = (-1, 0)` refutes the
+    statement without `h0` (`Sweep.no_peak_iff_within_capacity_counterexample`). -/
+theorem C05_no_peak_iff_within_capacity (as : List TAtom) (h : AtomsOk as) (cap : Time)
+    (h0 : as ≠ [] ∨ tle ((0, 0) : Time) cap = true) :
+    rrPeaks as cap = [] ↔ ∀ t : Time, tle (usageAt as t) cap = true :=
+  no_peak_iff_within_capacity h.1 h.2 cap h0
 
 /-- a reported peak is an instant at which the capacity is exceeded -/
 theorem C05_reported_peak_exceeds (as : List TAtom) (h : AtomsOk as) (cap : Time) (p : Time) (hp : p ∈ rrPeaks as cap) :
-    tlt cap (usageAt as p) = true := by sorry
+    tlt cap (usageAt as p) = true :=
+  (peak_exceeds h.1 h.2 hp).2
 
 /-- the usage shown for a timeline segment is the sum of the amounts of the atoms covering it -/
 theorem C05_timeline_usage_is_sum (as : List TAtom) (h : AtomsOk as) (o hz : Time)
     (hb : ∀ a ∈ as, tle o a.start = true ∧ tle a.stop hz = true) (hoh : tle o hz = true) :
     ∀ s ∈ rrTimeline as o hz, s.usage = usageAt as s.lo ∧
-      ∀ t : Time, tle s.lo t = true → tlt t s.hi = true → usageAt as t = s.usage := by sorry
+      ∀ t : Time, tle s.lo t = true → tlt t s.hi = true → usageAt as t = s.usage := by
+  obtain ⟨hnd, hle⟩ := h
+  intro s hs
+  obtain ⟨_, hA, hG, hN, hu⟩ := rrTimeline_spec hnd hle o hz s hs
+  have h1 : s.usage = usageAt as s.lo := by rw [hu]; exact usageOf_eq_usageSum hnd hA hN
+  refine ⟨h1, fun t ht1 ht2 => ?_⟩
+  rw [h1]
+  exact usageSum_congr (fun a ha => covers_eq_of_gap hG ht1 ht2 ha)
 
-example : rrPeaks [⟨1, (0, 0), (3, 0), (2, 0)⟩, ⟨2, (2, 0), (4, 0), (2, 0)⟩] (3, 0) = [(2, 0)] := by sorry
+example : rrPeaks [⟨1, (0, 0), (3, 0), (2, 0)⟩, ⟨2, (2, 0), (4, 0), (2, 0)⟩] (3, 0) = [(2, 0)] := by decide +kernel
 
 end Oratio
